@@ -1,4 +1,6 @@
 import Storrent.Model.Tracker
+import Storrent.Model.TrackerTable
+import Storrent.Gen.TrackerConsts
 /-
 C15 — Trackers: hostile replies are harmless, announces are disciplined.
 
@@ -992,6 +994,218 @@ theorem C15_effective_interval_udp (b : Base) (now : Int) (lag : Nat) (f4 f6 : U
   simp only [hu, Bool.false_eq_true, if_false, h4, h6]
   rw [← ha, finish_locked _ _ _ _ _ (by simp)]
   exact ⟨_, _, rfl, by simp, (updateInterval_interval _ _ _).1 hm⟩
+
+/-! ### tie to the source: the constants -/
+
+/-- **C15_gen_tracker_consts**: the guards of `base.ready()` and `base.updateInterval()` and the
+    retransmission loop of `udpRequestReply`, as regenerated from the Go source on every run, are
+    the expected ones: 30-minute default, 5-minute floor, 1-minute threshold, 15-minute fallback,
+    4 attempts, 5 s first timeout, doubling. -/
+theorem C15_gen_tracker_consts :
+    Gen.trackerReadyGuards = expectedReadyGuards ∧ Gen.trackerUpdateGuards = expectedUpdateGuards ∧
+    Gen.trackerUdpAttempts = some (udpAttempts : Int) ∧ Gen.trackerUdpTimeout0 = some udpTimeout0 ∧
+    Gen.trackerUdpBackoff = some udpBackoff :=
+  ⟨by decide, by decide, by decide, by decide, by decide⟩
+
+/-- the model's functions are the functions of those constants -/
+theorem effInterval_table (i : Int) :
+    effInterval i = (let i := if i ≤ 0 then defaultInterval else i
+                     if i < floorInterval then floorInterval else i) := rfl
+
+theorem updateInterval_table (b : Base) (i : Int) (e : Err) :
+    (updateInterval b i e).interval =
+      (if i > acceptAbove then i else if b.interval < fallbackInterval then fallbackInterval else b.interval) := by
+  unfold updateInterval acceptAbove fallbackInterval
+  dsimp only
+  split
+  · rfl
+  · split <;> rfl
+
+theorem udpRequestReply_attempts (fixed : Bool) (min action tid : Nat) (atts : List Attempt) :
+    udpRequestReply fixed min action tid atts = rrLoop fixed min action tid udpAttempts .nil atts := rfl
+
+/-! ### trackerAnnounce: the tier walk -/
+
+/-- the state a walk saw at `(tier, position)` -/
+def stateAt (tiers : List (List TState)) (x : Nat × Nat) : Option TState :=
+  (tiers[x.1]?).bind (·[x.2]?)
+
+/-- what the walk of one tier can yield -/
+structure TierOK (ti j : Nat) (tl : List TState) (w : Walk) : Prop where
+  one : w.started.length ≤ 1
+  ret : w.returned = true ↔ w.started ≠ []
+  rdy : ∀ x ∈ w.started, ∃ k, x = (ti, j + k) ∧ tl[k]? = some .ready
+  vis : ∀ x ∈ w.started, w.visited.getLast? = some x
+  sub : ∀ x ∈ w.visited, ∃ k, x = (ti, j + k) ∧ k < tl.length
+
+theorem walkTier_ok (ti : Nat) : ∀ (tl : List TState) (j : Nat), TierOK ti j tl (walkTier ti j tl) := by
+  intro tl
+  induction tl with
+  | nil => intro j; exact ⟨by simp [walkTier], by simp [walkTier], by simp [walkTier], by simp [walkTier],
+      by simp [walkTier]⟩
+  | cons s rest ih =>
+    intro j
+    unfold walkTier
+    by_cases h1 : s = .ready
+    · rw [if_pos h1]
+      refine ⟨by simp, by simp, ?_, by simp, ?_⟩
+      · intro x hx; simp at hx; exact ⟨0, by simp [hx], by simp [h1]⟩
+      · intro x hx; simp at hx; exact ⟨0, by simp [hx], by simp⟩
+    · rw [if_neg h1]
+      by_cases h2 : s ≠ .error
+      · rw [if_pos h2]
+        refine ⟨by simp, by simp, by simp, by simp, ?_⟩
+        intro x hx; simp at hx; exact ⟨0, by simp [hx], by simp⟩
+      · rw [if_neg h2]
+        have k := ih (j + 1)
+        refine ⟨k.one, k.ret, ?_, ?_, ?_⟩
+        · intro x hx
+          obtain ⟨n, e1, e2⟩ := k.rdy x hx
+          exact ⟨n + 1, by rw [e1]; congr 1; omega, by simpa using e2⟩
+        · intro x hx
+          have := k.vis x hx
+          dsimp only
+          cases hv : (walkTier ti (j + 1) rest).visited with
+          | nil => rw [hv] at this; simp at this
+          | cons a l => rw [hv] at this; simpa [List.getLast?_cons_cons] using this
+        · intro x hx
+          dsimp only at hx
+          rcases List.mem_cons.1 hx with rfl | hx
+          · exact ⟨0, by simp, by simp⟩
+          · obtain ⟨n, e1, e2⟩ := k.sub x hx
+            exact ⟨n + 1, by rw [e1]; congr 1; omega, by simpa using e2⟩
+
+/-- what a whole walk yields -/
+structure WalkOK (tiers : List (List TState)) (w : Walk) : Prop where
+  one : w.started.length ≤ 1
+  ret : w.started ≠ [] → w.returned = true
+  rdy : ∀ x ∈ w.started, stateAt tiers x = some .ready
+  vis : ∀ x ∈ w.started, w.visited.getLast? = some x
+
+theorem walkTiers_ok (tiers : List (List TState)) : ∀ (perm : List Nat) (w : Walk),
+    walkTiers tiers perm = some w → WalkOK tiers w := by
+  intro perm
+  induction perm with
+  | nil => intro w h; simp [walkTiers] at h; subst h; exact ⟨by simp, by simp, by simp, by simp⟩
+  | cons i perm ih =>
+    intro w h
+    unfold walkTiers at h
+    cases ht : tiers[i]? with
+    | none => rw [ht] at h; simp at h
+    | some tl =>
+      rw [ht] at h
+      dsimp only at h
+      have k := walkTier_ok i tl 0
+      have krdy : ∀ x ∈ (walkTier i 0 tl).started, stateAt tiers x = some .ready := by
+        intro x hx
+        obtain ⟨n, e1, e2⟩ := k.rdy x hx
+        rw [e1]; simp [stateAt, ht, e2]
+      by_cases hr : (walkTier i 0 tl).returned = true
+      · rw [if_pos hr] at h
+        simp only [Option.some.injEq] at h
+        subst h
+        exact ⟨k.one, fun _ => hr, krdy, k.vis⟩
+      · rw [if_neg hr] at h
+        have hs : (walkTier i 0 tl).started = [] := by
+          cases hst : (walkTier i 0 tl).started with
+          | nil => rfl
+          | cons a l => exact absurd (k.ret.2 (by simp [hst])) hr
+        cases hw : walkTiers tiers perm with
+        | none => rw [hw] at h; simp at h
+        | some w' =>
+          rw [hw] at h
+          simp only [Option.some.injEq] at h
+          subst h
+          have k' := ih w' hw
+          refine ⟨by simpa [hs] using k'.one, by simpa [hs] using k'.ret, by simpa [hs] using k'.rdy, ?_⟩
+          intro x hx
+          simp only [hs, List.nil_append] at hx
+          have := k'.vis x hx
+          dsimp only
+          cases hv : w'.visited with
+          | nil => rw [hv] at this; simp at this
+          | cons a l => rw [hv] at this; rw [List.getLast?_append]; simp [this]
+
+/-- **C15_tier_walk_one**: whatever the tiers, whatever every tracker's `GetState` answers and
+    whatever tier order the PRNG draws, one call of `trackerAnnounce` (one slow tick) starts at
+    most one announce, and `GetState` is asked of nobody after it was started. -/
+theorem C15_tier_walk_one (tiers : List (List TState)) (perm : List Nat) (w : Walk)
+    (h : walkTiers tiers perm = some w) :
+    w.started.length ≤ 1 ∧ ∀ x ∈ w.started, w.visited.getLast? = some x :=
+  ⟨(walkTiers_ok tiers perm w h).one, (walkTiers_ok tiers perm w h).vis⟩
+
+/-- **C15_tier_walk_ready_only**: an announce is started only for a tracker whose `GetState`
+    answered Ready in this very walk. -/
+theorem C15_tier_walk_ready_only (tiers : List (List TState)) (perm : List Nat) (w : Walk)
+    (h : walkTiers tiers perm = some w) : ∀ x ∈ w.started, stateAt tiers x = some .ready :=
+  (walkTiers_ok tiers perm w h).rdy
+
+/-- the walk does not fault when the tier order is a list of valid tier indices (`rand.Perm`) -/
+theorem C15_tier_walk_no_panic (tiers : List (List TState)) : ∀ (perm : List Nat),
+    (∀ i ∈ perm, i < tiers.length) → ∃ w, walkTiers tiers perm = some w := by
+  intro perm
+  induction perm with
+  | nil => intro _; exact ⟨_, rfl⟩
+  | cons i perm ih =>
+    intro hp
+    have hi : i < tiers.length := hp i (List.mem_cons_self ..)
+    obtain ⟨w', hw'⟩ := ih (fun j hj => hp j (List.mem_cons_of_mem _ hj))
+    unfold walkTiers
+    rw [List.getElem?_eq_getElem hi]
+    dsimp only
+    split
+    · exact ⟨_, rfl⟩
+    · rw [hw']; exact ⟨_, rfl⟩
+
+theorem stateOf_ready (b : Base) (now : Int) (h : stateOf b now = .ready) :
+    b.locked = false ∧ ready b now = true := by
+  cases hl : b.locked with
+  | true => simp [stateOf, getState, tryLock, hl] at h
+  | false =>
+    refine ⟨rfl, ?_⟩
+    cases hr : ready b now with
+    | true => rfl
+    | false =>
+      have hr' : ready { b with locked := true } now = false := by simpa [ready] using hr
+      simp only [stateOf, getState, tryLock, unlock, hl, hr', Bool.false_eq_true, if_false, if_true] at h
+      by_cases he : b.err ≠ Err.nil
+      · simp [he] at h
+      · simp [he] at h
+
+/-- **Lifting to the torrent.**  With modelled trackers (`tierStates`: every tracker answers what
+    its own `GetState` computes at the tick's clock reading), the tracker a tick contacts is
+    unlocked and passes its own `ready` gate at that instant: more than
+    `max (5 min) (its stored interval)` has passed since its last attempt.  Together with
+    `C15_discipline` (which holds for every history of calls on one tracker, so in particular for
+    the GetState / Announce calls any sequence of ticks makes on it) the per-tracker discipline
+    is the torrent's. -/
+theorem C15_tier_walk_discipline (tiers : List (List Base)) (now : Int) (perm : List Nat) (w : Walk)
+    (h : walkTiers (tierStates tiers now) perm = some w) :
+    ∀ x ∈ w.started, ∃ b, (tiers[x.1]?).bind (·[x.2]?) = some b ∧ b.locked = false ∧
+      ready b now = true ∧ max (5 * minute) b.interval < now - b.time := by
+  intro x hx
+  have hr := C15_tier_walk_ready_only _ perm w h x hx
+  unfold stateAt tierStates at hr
+  simp only [List.getElem?_map] at hr
+  cases ht : tiers[x.1]? with
+  | none => rw [ht] at hr; simp at hr
+  | some tl =>
+    rw [ht] at hr
+    simp only [Option.map_some, Option.bind_some, List.getElem?_map] at hr
+    cases hb : tl[x.2]? with
+    | none => rw [hb] at hr; simp at hr
+    | some b =>
+      rw [hb] at hr
+      simp only [Option.map_some, Option.some.injEq] at hr
+      refine ⟨b, by simp [hb], ?_⟩
+      have hl := stateOf_ready b now hr
+      refine ⟨hl.1, hl.2, ?_⟩
+      have hrd := hl.2
+      unfold ready at hrd
+      have h5 := effInterval_ge b.interval
+      have : max (5 * minute) b.interval ≤ effInterval b.interval := Int.max_le.mpr ⟨h5.1, h5.2⟩
+      have : b.time + effInterval b.interval < now := by simpa using hrd
+      omega
 
 /-! ### non-vacuity -/
 
